@@ -1309,6 +1309,25 @@ class NLargest(ReductionConstantDim):
     def aggregate_kwargs(self):
         return self.chunk_kwargs
 
+    def _simplify_up(self, parent, dependents):
+        if self._columns is None:
+            return super()._simplify_up(parent, dependents)
+        if isinstance(parent, Projection):
+            # The ordering columns have to survive the projection, and the
+            # frame has to stay a DataFrame for the ``columns`` keyword
+            columns = determine_column_projection(
+                self, parent, dependents, additional_columns=self._columns
+            )
+            if not isinstance(columns, list):
+                columns = [columns]
+            columns = [col for col in self.frame.columns if col in columns]
+            if columns == self.frame.columns:
+                return
+            return type(parent)(
+                type(self)(self.frame[columns], *self.operands[1:]),
+                *parent.operands[1:],
+            )
+
 
 def _nfirst(df, columns, n, ascending):
     return df.sort_values(by=columns, ascending=ascending).head(n)
